@@ -146,6 +146,8 @@ def get_sym_group_num_irrep(N:int, return_full:bool=False):
     assert N>=1
     return_full = bool(return_full)
     ret = _get_sym_group_num_irrep_hf0(N, return_full)
+    if return_full:
+        ret = ret[0], ret[1].copy() #caller may modify the table in place
     return ret
 
 def get_sym_group_young_diagram(N:int):
